@@ -14,6 +14,9 @@ use std::collections::BTreeMap;
 type Item = (String, String, String, usize, usize, usize);
 
 
+/// not included by anything: the target of the TOCTOU redirect
+pub const TOCTOU_FILE: &str = "zz_rewritten.s";
+
 pub fn all_modes() -> Vec<Vec<String>> {
     let mut v = Vec::new();
     for bits in 0..16u32 {
@@ -42,6 +45,15 @@ pub fn generate(r: &mut Rng, tier: Tier) -> Scenario {
     });
     let k = if tier == Tier::Quick { 1 } else { 3 };
     let entropy: Vec<u64> = (0..k).map(|_| r.next_u64() >> 11).collect();
+    let mut world = world;
+    if r.chance(1, 3) {
+        // what a file looks like after somebody rewrote it while the analyzer was running: the
+        // printer's re-open (if it re-opens at all) is redirected here (TOCTOU)
+        let base_text = world.files.get(&world.base).cloned().unwrap_or_default();
+        world.files.insert(TOCTOU_FILE.to_string(), format!("# this text was never analysed
+# nor was this
+{base_text}"));
+    }
     Scenario {
         property: "C18".into(),
         variant: "t2-channels".into(),
@@ -50,7 +62,7 @@ pub fn generate(r: &mut Rng, tier: Tier) -> Scenario {
         reader_faults: vec![],
         entropy,
         history: vec![],
-        t2: Some(T2Spec { modes: all_modes(), plan: vec![], profile: "dev".into(), force_color: true }),
+        t2: Some(T2Spec { modes: all_modes(), plan: vec![], profile: "dev".into(), force_color: true, raw_base_name: None }),
         content_faults: vec![],
         expected_levels: std::collections::BTreeMap::new(),
         note: format!("gen={g:?} cut={c:?}"),
@@ -261,10 +273,10 @@ pub fn check(scn: &Scenario, stats: &mut Stats) -> Vec<Violation> {
     let mut table: BTreeMap<String, String> = scn.expected_levels.clone();
     for &e in &scn.entropy {
         let run = |flags: &[String], color: bool| {
-            t2::run_rva(&t2::RvaCall { sandbox: &sb, base: &scn.world.base, flags, entropy: e, plan: &spec.plan, profile: &spec.profile, force_color: color, cpu_seconds: 10 })
+            t2::run_rva(&t2::RvaCall { sandbox: &sb, base: &scn.world.base, flags, entropy: e, plan: &spec.plan, profile: &spec.profile, force_color: color, cpu_seconds: 10, raw_base: None })
         };
-        // reference: --json
-        let jflags = vec!["--json".to_string()];
+        // reference: --json --all-files (every diagnostic of every file)
+        let jflags = vec!["--json".to_string(), "--all-files".to_string()];
         let Ok(jr) = run(&jflags, false) else {
             stats.inc("harness:spawn_failed");
             return out;
@@ -320,6 +332,7 @@ pub fn check(scn: &Scenario, stats: &mut Stats) -> Vec<Violation> {
         }
         stats.add("items_compared", r_all.len() as u64);
 
+        let mut plain_out: BTreeMap<String, String> = BTreeMap::new();
         for flags in &spec.modes {
             let is_json = flags.iter().any(|f| f == "--json");
             let compact = flags.iter().any(|f| f == "--compact");
@@ -336,11 +349,38 @@ pub fn check(scn: &Scenario, stats: &mut Stats) -> Vec<Violation> {
             }
             let mname = mode_name(flags);
             if is_json {
-                if r.stdout != jr.stdout {
-                    out.push(viol("json-affected-by-other-flags", "json-affected-by-other-flags".into(), format!("entropy {e}: `{mname}` differs from `--json`")));
-                    return out;
+                // the JSON channel lists the items of its selection (base file only, or all
+                // files), whatever other flags are given
+                if all {
+                    if r.stdout != jr.stdout {
+                        out.push(viol("json-affected-by-other-flags", "json-affected-by-other-flags".into(), format!("entropy {e}: `{mname}` differs from `--json --all-files`")));
+                        return out;
+                    }
+                } else {
+                    match parse_json(&r.stdout) {
+                        Err(why) => {
+                            out.push(viol("json-shape", "json-shape".into(), format!("entropy {e}: `{mname}`: {why}")));
+                            return out;
+                        }
+                        Ok(items) => {
+                            let got: Vec<Item> = items.iter().map(|j| j.item.clone()).collect();
+                            if got != r_base {
+                                let i = got.iter().zip(&r_base).position(|(a, b)| a != b).unwrap_or(got.len().min(r_base.len()));
+                                out.push(viol(
+                                    "channels-disagree",
+                                    "channels-disagree:json:base-file-selection".into(),
+                                    format!("entropy {e}: `{mname}` (base file only) vs the base-file items of --json --all-files at item {i}: {:?} vs {:?} ({} vs {} items)", got.get(i), r_base.get(i), got.len(), r_base.len()),
+                                ));
+                                return out;
+                            }
+                            stats.inc("json_base_selection_checked");
+                        }
+                    }
                 }
                 continue;
+            }
+            if no_color && !compact {
+                plain_out.insert(mname.clone(), r.stdout.clone());
             }
             let text = if no_color {
                 if r.stdout.contains('\u{1b}') {
@@ -447,6 +487,39 @@ pub fn check(scn: &Scenario, stats: &mut Stats) -> Vec<Violation> {
                         }
                         let _ = split_lines;
                     }
+                }
+            }
+        }
+
+        // the file changes on disk between the analysis and the output (TOCTOU): every open after
+        // the ones the analysis itself made is redirected to other text; the excerpts must still
+        // show the lines that were analysed, so the output must not change at all
+        if scn.world.files.contains_key(TOCTOU_FILE) && !r_all.is_empty() {
+            let analysis_opens = jr.log.lines().filter(|l| l.starts_with("open ")).count();
+            for flags in [vec!["--no-color".to_string()], vec!["--no-color".to_string(), "--all-files".to_string()]] {
+                let Some(clean) = plain_out.get(&mode_name(&flags)) else { continue };
+                let plan: Vec<String> = (1..=4).map(|k| format!("open:{}:redirect:@/{TOCTOU_FILE}", analysis_opens + k)).collect();
+                let Ok(r) = t2::run_rva(&t2::RvaCall { sandbox: &sb, base: &scn.world.base, flags: &flags, entropy: e, plan: &plan, profile: &spec.profile, force_color: false, cpu_seconds: 10, raw_base: None }) else {
+                    stats.inc("harness:spawn_failed");
+                    return out;
+                };
+                stats.inc("t2_runs");
+                if r.abnormal().is_some() {
+                    stats.inc("skipped_crash_or_hang(C06's subject)");
+                    return out;
+                }
+                let fired = r.log.lines().filter(|l| l.contains("FAULT redirect")).count();
+                stats.add("fault:fs:toctou-redirect-fired", fired as u64);
+                stats.inc("toctou_runs");
+                if r.stdout != *clean {
+                    let (a, b): (Vec<&str>, Vec<&str>) = (r.stdout.lines().collect(), clean.lines().collect());
+                    let i = a.iter().zip(&b).position(|(x, y)| x != y).unwrap_or(a.len().min(b.len()));
+                    out.push(viol(
+                        "excerpt",
+                        "excerpt:text-not-analysed(file-rewritten-before-output)".into(),
+                        format!("entropy {e}: `{}` with the file rewritten after the analysis read it ({fired} re-open(s) redirected): output line {} is `{}`, without the rewrite `{}`", mode_name(&flags), i + 1, a.get(i).unwrap_or(&""), b.get(i).unwrap_or(&"")),
+                    ));
+                    return out;
                 }
             }
         }
